@@ -88,19 +88,60 @@ def run(tier, res, is_known):
     vits = [{'fee': list(fee), 'cycle': c, 'repeats': [r]} for c in cycles for r in reps]
     product(periodic, vits, res, is_known, label='very long ledgers (> 10 000 entries)', chunk=1)
     res.rule += '; plus %d ledgers of more than 10 000 entries' % len(vits)
+    if any(not is_known(v) for v in res.violations):
+        return
+    # many portfolios on one account (5 - 40): the account totals are sums over all of them
+    mits = [(k, base) for k in ((5, 9, 17) if tier == 'quick' else (5, 8, 9, 17, 32, 33, 40)) for base in ('USD', 'GBP')]
+    product(many_portfolios, mits, res, is_known, label='accounts with many portfolios', chunk=1)
+    res.rule += '; plus accounts with 5-40 portfolios'
 
 
 def replay(case):
+    if case.get('harness') == 'many_portfolios':
+        m, fails = bm.build(FEES_QUICK[1], many_history(case['k'])[:case['cut']], check_last=True, base=case['base'])
+        return [f for f in fails if f['clause'].startswith('C01.')]
     if case.get('harness') == 'periodic':
         return bm.replay_periodic(case, 'C01.', df_check=True)
     return bm.replay_broker(dict(case, df_check=True), 'C01.')
 
 
 def minimise(case, clause):
-    if case.get('harness') == 'periodic':
+    if case.get('harness') in ('periodic', 'many_portfolios'):
         return case
     return bm.minimise_broker(dict(case, df_check=True), clause, 'C01.')
 
 
 def periodic(item):
     return bm.periodic_point(item, 'C01.', df_check=True)
+
+
+def many_history(k):
+    hist = [('acct_sub', str(1000 * k + 777))]
+    for i in range(k):
+        hist.append(('create', 'p%02d' % i))
+    for i in range(k):
+        hist.append(('pf_sub', 'p%02d' % i, '%d.%02d' % (600 + 37 * i, (i * 7) % 100)))
+    hist.append(('tick', 1))
+    for i in range(0, k, 2):
+        hist.append(('submit', 'p%02d' % i, 'A' if i % 4 == 0 else 'Bq', 3 if i % 3 else -2))
+    hist += [('tick', 3)]
+    for i in range(1, k, 3):
+        hist.append(('pf_wd', 'p%02d' % i, '16.667'))
+    hist += [('quotes', 1), ('tick', 4), ('acct_wd', '100.005')]
+    return tuple(hist)
+
+
+def many_portfolios(item):
+    k, base = item
+    fee = FEES_QUICK[1]
+    hist = many_history(k)
+    viols, n = [], 0
+    for cut in range(2 * k + 2, len(hist) + 1):
+        m, fails = bm.build(fee, hist[:cut], check_last=True, base=base)
+        n += 1
+        viols += [dict(f, case={'harness': 'many_portfolios', 'k': k, 'base': base, 'cut': cut}) for f in fails
+                  if f['clause'].startswith('C01.')]
+        if viols:
+            break
+    return {'viols': viols[:4], 'execs': n, 'evals': n, 'nontrivial': True, 'outcome': ('many', k, base),
+            'counters': {'many_portfolio_histories': n}}
